@@ -474,7 +474,20 @@ def check_graph(graph: tuple, res: ShardResult | None) -> list[tuple[str, Any, A
             out.append(("C06:nesting-exceeds-configured-depth-limit", {"templates": templates, "entry": "include", "limit": L}, f"context chain <= {L + 1}, scope size <= {L + 6}", dict(_DEPTH)))
         if not (g[0] == "liquid" and g[1] in ("ContextDepthError", "TemplateInheritanceError", "DisabledTagError")):
             out.append((f"C06:cyclic-graph-not-stopped-by-small-depth-limit:{g[0]}:{g[1] if g[0] != 'ok' else 'rendered'}", {"templates": templates, "entry": "include", "limit": L}, "ContextDepthError", list(g)[:2] if g[0] != "ok" else ["ok", g[1][:80]]))
-    for how, g in (("include", got), ("render", got2)):
+    # a configured depth limit far ABOVE what the interpreter's stack can hold: the cycle still ends in a depth or
+    # inheritance error (sync and async), never in RecursionError
+    high = []
+    # (graphs of one or two templates with one edge each, and the three-template rings)
+    simple = all(len(e) == 1 for e in graph) and (n <= 2 or (n == 3 and all(e[0][1] == (i + 1) % 3 for i, e in enumerate(graph))))
+    for mode in ("sync", "async") if simple else ():
+        try:
+            sys.setrecursionlimit(1000)
+            high.append((f"include-depth-limit-5000-{mode}", _limited(templates, {"context_depth_limit": 5000}, "{% include 'g0' %}", {}, mode)))
+        finally:
+            sys.setrecursionlimit(old)
+        if res is not None:
+            res.evaluations += 1
+    for how, g in (("include", got), ("render", got2), *high):
         if res is not None:
             res.outcomes.add(h64(list(g)))
         # (DisabledTagError: the cycle runs through an include below a render, which is refused before it can recurse)
